@@ -67,10 +67,20 @@ fn emit(st: &mut Stats, family: &str, limit: usize, dur_ns: u64, hist: &[(u64, u
         let so = run_history(limit, dur_ns, &sub);
         solo.push(format!("({}, {})", k, g_list(&so.dec.iter().map(|b| g_bool(*b)).collect::<Vec<_>>())));
     }
+    // the same history with every rejected attempt made a second time at the same instant
+    let mut dh = vec![];
+    let mut is_rep = vec![];
+    for (i, (k, gap)) in hist.iter().enumerate() {
+        dh.push((*k, *gap)); is_rep.push(false);
+        if !o.dec[i] { dh.push((*k, 0)); is_rep.push(true); }
+    }
+    let dobs = run_history(limit, dur_ns, &dh);
+    let dup: Vec<String> = dobs.dec.iter().zip(&is_rep).filter(|(_, r)| !**r).map(|(b, _)| g_bool(*b)).collect();
+    let dupr: Vec<String> = dobs.dec.iter().zip(&is_rep).filter(|(_, r)| **r).map(|(b, _)| g_bool(*b)).collect();
     let h: Vec<String> = hist.iter().zip(&o.times).map(|((k, _), t)| format!("({}, {})", k, t)).collect();
     let d: Vec<String> = o.dec.iter().map(|b| g_bool(*b)).collect();
     let t: Vec<String> = o.trk.iter().map(|ks| g_list(&ks.iter().map(|k| k.to_string()).collect::<Vec<_>>())).collect();
-    emit_case(family, &format!("(C13 {} {} {} {} {} {})", limit, dur_ns, g_list(&h), g_list(&d), g_list(&t), g_list(&solo)));
+    emit_case(family, &format!("(C13 {} {} {} {} {} {} {} {})", limit, dur_ns, g_list(&h), g_list(&d), g_list(&t), g_list(&solo), g_list(&dup), g_list(&dupr)));
     st.admitted += o.dec.iter().filter(|b| **b).count();
     st.attempts += o.dec.len();
     // keys dropped by the cleanup, and dropped keys that attempt again later
